@@ -716,18 +716,21 @@ func rc3bExhaustiveCycleSearch(w *World) {
 	}
 	info := cc.Pkg.TypesInfo
 	var lit *ast.FuncLit
-	ast.Inspect(cc.Decl.Body, func(x ast.Node) bool {
-		c, ok := x.(*ast.CallExpr)
-		if !ok || len(c.Args) != 1 {
-			return true
-		}
-		if s, ok := ast.Unparen(c.Fun).(*ast.SelectorExpr); ok && s.Sel.Name == "Range" {
-			if fl, ok := c.Args[0].(*ast.FuncLit); ok && lit == nil {
-				lit = fl
+	// the search loop may live in checkCycle itself or in a helper of the package it calls
+	for _, body := range append([]*ast.BlockStmt{cc.Decl.Body}, samePkgCalleeBodies(w, cc)...) {
+		ast.Inspect(body, func(x ast.Node) bool {
+			c, ok := x.(*ast.CallExpr)
+			if !ok || len(c.Args) != 1 {
+				return true
 			}
-		}
-		return true
-	})
+			if s, ok := ast.Unparen(c.Fun).(*ast.SelectorExpr); ok && s.Sel.Name == "Range" {
+				if fl, ok := c.Args[0].(*ast.FuncLit); ok && lit == nil {
+					lit = fl
+				}
+			}
+			return true
+		})
+	}
 	if lit == nil {
 		w.undecided("RC3b|checkCycle|callback", cc.Decl.Pos(), "no deps.Range(func…) callback found in checkCycle")
 		return
@@ -793,4 +796,23 @@ func rc3bExhaustiveCycleSearch(w *World) {
 	if bad == 0 {
 		w.ok("RC3b|checkCycle|exhaustive", lit.Pos(), fmt.Sprintf("on all %d exit(s) of the callback the dependency was enqueued or already visited", nRet))
 	}
+}
+
+// samePkgCalleeBodies lists the bodies of the functions of f's package that f calls statically.
+func samePkgCalleeBodies(w *World, f *FuncRef) []*ast.BlockStmt {
+	var out []*ast.BlockStmt
+	seen := map[*types.Func]bool{f.Obj: true}
+	info := f.Pkg.TypesInfo
+	ast.Inspect(f.Decl.Body, func(x ast.Node) bool {
+		if c, ok := x.(*ast.CallExpr); ok {
+			if g := callee(info, c); g != nil && g.Pkg() == f.Pkg.Types && !seen[g.Origin()] {
+				seen[g.Origin()] = true
+				if d := w.decls[g.Origin()]; d != nil && d.Body != nil {
+					out = append(out, d.Body)
+				}
+			}
+		}
+		return true
+	})
+	return out
 }
